@@ -1819,3 +1819,95 @@ pub fn run_item_records(threads: u32, queue: usize, sizes: Vec<usize>, hint_mode
     r?;
     Ok((got, total))
 }
+
+// ---------------------------------------------------------------------------
+// per-record function with LARGE per-record output objects and batches whose record count goes
+// down and up: whatever an implementation does to the recycled vector of such objects, every
+// record must arrive once with its own output
+
+pub struct BigOut(pub Box<[u64; 2048]>);
+
+impl Default for BigOut {
+    fn default() -> Self {
+        BigOut(Box::new([0u64; 2048]))
+    }
+}
+
+/// big record data stored inline (16 KiB per record) - the vector of outputs is what grows
+#[derive(Clone)]
+pub struct InlineOut(pub [u64; 2048]);
+
+impl Default for InlineOut {
+    fn default() -> Self {
+        InlineOut([0u64; 2048])
+    }
+}
+
+/// (records expected, records received with (index, own output ok))
+pub fn run_bigdata_records(fastq: bool, threads: u32, queue: usize, shard: u64) -> Result<(usize, Vec<(usize, bool)>), String> {
+    // stretches of short and of longer records: the number of records per buffer-full changes by
+    // less than a factor of two between neighbouring stretches
+    let mut input = vec![];
+    let n = 2600usize;
+    for i in 0..n {
+        let stretch = (i / 450) % 3;
+        let l = [4usize, 9, 6][stretch] + (shard as usize % 3);
+        let head = format!("{}", i);
+        if fastq {
+            input.push(b'@');
+            input.extend_from_slice(head.as_bytes());
+            input.push(b'\n');
+            input.extend((0..l).map(|k| b"ACGT"[k % 4]));
+            input.extend_from_slice(b"\n+\n");
+            input.extend((0..l).map(|_| b'I'));
+            input.push(b'\n');
+        } else {
+            input.push(b'>');
+            input.extend_from_slice(head.as_bytes());
+            input.push(b'\n');
+            input.extend((0..l).map(|k| b"ACGT"[k % 4]));
+            input.push(b'\n');
+        }
+    }
+    let cap = 4096;
+    let mut got: Vec<(usize, bool)> = vec![];
+    let key = |id: usize, len: usize| (id as u64).wrapping_mul(0x9E37_79B9).wrapping_add(len as u64);
+    if fastq {
+        let rdr = fastq::Reader::with_capacity(&input[..], cap);
+        let r: Result<Option<()>, fastq::Error> = parallel::parallel_fastq(
+            rdr,
+            threads,
+            queue,
+            |rec, out: &mut InlineOut| {
+                let id: usize = std::str::from_utf8(rec.head()).ok().and_then(|s| s.parse().ok()).unwrap_or(usize::MAX);
+                out.0[0] = key(id, rec.seq().len());
+                out.0[2047] = !out.0[0];
+            },
+            |rec, out| {
+                let id: usize = std::str::from_utf8(rec.head()).ok().and_then(|s| s.parse().ok()).unwrap_or(usize::MAX);
+                got.push((id, out.0[0] == key(id, rec.seq().len()) && out.0[2047] == !out.0[0]));
+                None
+            },
+        );
+        r.map_err(|e| format!("{:?}", e))?;
+    } else {
+        let rdr = fasta::Reader::with_capacity(&input[..], cap);
+        let r: Result<Option<()>, fasta::Error> = parallel::parallel_fasta(
+            rdr,
+            threads,
+            queue,
+            |rec, out: &mut InlineOut| {
+                let id: usize = std::str::from_utf8(rec.head()).ok().and_then(|s| s.parse().ok()).unwrap_or(usize::MAX);
+                out.0[0] = key(id, rec.seq().len());
+                out.0[2047] = !out.0[0];
+            },
+            |rec, out| {
+                let id: usize = std::str::from_utf8(rec.head()).ok().and_then(|s| s.parse().ok()).unwrap_or(usize::MAX);
+                got.push((id, out.0[0] == key(id, rec.seq().len()) && out.0[2047] == !out.0[0]));
+                None
+            },
+        );
+        r.map_err(|e| format!("{:?}", e))?;
+    }
+    Ok((n, got))
+}
